@@ -30,6 +30,9 @@ pub struct ClockCfg {
     pub hi_ns: i64,
     /// (at_read, delta_ns): jump fired when the at_read-th wall clock read happens
     pub jumps: Vec<(u64, i64)>,
+    /// tick of the simulated monotonic clock per read (0 = default 1 µs); large = slow/stalled node
+    #[serde(default)]
+    pub mono_tick_ns: i64,
 }
 
 impl ClockCfg {
@@ -41,9 +44,17 @@ impl ClockCfg {
             lo_ns: window_lo(),
             hi_ns: window_hi(),
             jumps: vec![],
+            mono_tick_ns: 0,
         }
     }
     pub fn ctx(&self, entropy_seed: u64) -> Arc<RunCtx> {
+        let c = self.ctx_inner(entropy_seed);
+        if self.mono_tick_ns > 0 {
+            c.set_mono_tick(self.mono_tick_ns);
+        }
+        c
+    }
+    fn ctx_inner(&self, entropy_seed: u64) -> Arc<RunCtx> {
         RunCtx::new(
             entropy_seed,
             self.start_ns,
@@ -83,7 +94,9 @@ pub fn gen_clock(class: usize, ladder: u64, r: &mut Sm) -> ClockCfg {
     let lo = window_lo();
     let hi = window_hi();
     let small_tick = |r: &mut Sm| *r.pick(&[1_000i64, 1_000_000, 7_000_000, 250_000_000, NS]);
-    let mut c = ClockCfg { class: String::new(), start_ns: 0, tick_ns: 1_000_000, lo_ns: lo, hi_ns: hi, jumps: vec![] };
+    let mut c = ClockCfg { class: String::new(), start_ns: 0, tick_ns: 1_000_000, lo_ns: lo, hi_ns: hi, jumps: vec![], mono_tick_ns: 0 };
+    // monotonic clock speed: mostly fast, sometimes a slow or stalled node (10 ms … 10 s per read)
+    c.mono_tick_ns = *r.pick(&[1_000i64, 1_000, 1_000, 50_000, 1_000_000, 20_000_000, 300_000_000, 10_000_000_000]);
     match class % N_CLOCK_CLASSES {
         0 => {
             c.class = "today".into();
@@ -250,7 +263,7 @@ impl Outcome {
         self.count("seam.entropy_calls", ctx.n_entropy_calls.load(Relaxed));
         self.count("seam.entropy_bytes", ctx.n_entropy_bytes.load(Relaxed));
         self.count("seam.clock_reads", ctx.n_clock_reads.load(Relaxed));
-        self.count("seam.monotonic_reads_passed_through", ctx.n_mono_reads.load(Relaxed));
+        self.count("seam.monotonic_clock_reads", ctx.n_mono_reads.load(Relaxed));
         self.count("fault.clock.midnight_crossed_between_reads", ctx.midnights_crossed.load(Relaxed));
         self.count("fault.clock.year_crossed_between_reads", ctx.years_crossed.load(Relaxed));
         self.count("fault.clock.backward_step_observed", ctx.backward_steps_seen.load(Relaxed));
